@@ -550,7 +550,7 @@ func (e StdEng) MatMul(a, b, prealloc Tensor) (err error) {
 		C := pd.Float64s()
 		alpha, beta := float64(1), float64(0)
 		if ado.IsColMajor() && bdo.IsColMajor() {
-			whichblas.Dgemm(tA, tB, n, m, k, alpha, B, ldb, A, lda, beta, C, ldc)
+			whichblas.Dgemm(tB, tA, n, m, k, alpha, B, ldb, A, lda, beta, C, ldc)
 		} else {
 			whichblas.Dgemm(tA, tB, m, n, k, alpha, A, lda, B, ldb, beta, C, ldc)
 		}
@@ -559,7 +559,7 @@ func (e StdEng) MatMul(a, b, prealloc Tensor) (err error) {
 		C := pd.Float32s()
 		alpha, beta := float32(1), float32(0)
 		if ado.IsColMajor() && bdo.IsColMajor() {
-			whichblas.Sgemm(tA, tB, n, m, k, alpha, B, ldb, A, lda, beta, C, ldc)
+			whichblas.Sgemm(tB, tA, n, m, k, alpha, B, ldb, A, lda, beta, C, ldc)
 		} else {
 			whichblas.Sgemm(tA, tB, m, n, k, alpha, A, lda, B, ldb, beta, C, ldc)
 		}
@@ -568,7 +568,7 @@ func (e StdEng) MatMul(a, b, prealloc Tensor) (err error) {
 		C := pd.Complex64s()
 		var alpha, beta complex64 = complex(1, 0), complex(0, 0)
 		if ado.IsColMajor() && bdo.IsColMajor() {
-			whichblas.Cgemm(tA, tB, n, m, k, alpha, B, ldb, A, lda, beta, C, ldc)
+			whichblas.Cgemm(tB, tA, n, m, k, alpha, B, ldb, A, lda, beta, C, ldc)
 		} else {
 			whichblas.Cgemm(tA, tB, m, n, k, alpha, A, lda, B, ldb, beta, C, ldc)
 		}
@@ -577,7 +577,7 @@ func (e StdEng) MatMul(a, b, prealloc Tensor) (err error) {
 		C := pd.Complex128s()
 		var alpha, beta complex128 = complex(1, 0), complex(0, 0)
 		if ado.IsColMajor() && bdo.IsColMajor() {
-			whichblas.Zgemm(tA, tB, n, m, k, alpha, B, ldb, A, lda, beta, C, ldc)
+			whichblas.Zgemm(tB, tA, n, m, k, alpha, B, ldb, A, lda, beta, C, ldc)
 		} else {
 			whichblas.Zgemm(tA, tB, m, n, k, alpha, A, lda, B, ldb, beta, C, ldc)
 		}
